@@ -239,4 +239,4 @@ impl Z80 {
 
 #[cfg(kani)]
 #[path = "/verif/hooks/z80/cpu.rs"]
-mod verif_hooks;
+pub(crate) mod verif_hooks;
